@@ -135,7 +135,7 @@ def run_case(ctx, case, rng):
       ctx.count('recipe_without_static_rule')
       continue
     forms = sorted({a[3] for a in acc})
-    feats = {'multi_signature': multi, 'regex_forms': forms, 'sep': sep}
+    feats = {'multi_signature': multi, 'regex_forms': forms, 'sep': sep, 'control_flow_subgraphs': 'control_flow' in spec.classes}
     detail = {'rules': [a[:3] for a in acc], 'ops': common.describe_model(spec.content, src)}
     del trace.TRACE[:]
     cal = None
